@@ -61,7 +61,7 @@ pub fn idle() {
 }
 
 pub fn limit() -> Duration {
-    Duration::from_secs(std::env::var("QVERIF_HANG_SECS").ok().and_then(|s| s.parse().ok()).unwrap_or(30))
+    Duration::from_secs(std::env::var("QVERIF_HANG_SECS").ok().and_then(|s| s.parse().ok()).unwrap_or(90))
 }
 
 /// Starts the watchdog. `to_case` turns a noted case into (violation key,
@@ -75,17 +75,25 @@ pub fn start(ctx: &Ctx, to_case: fn(&Noted) -> (String, Value), fin: fn(Ctx) -> 
     let lim = limit();
     std::thread::spawn(move || {
         let mut last: Vec<(u64, Instant)> = Vec::new();
+        // A stall must persist over this many of the watchdog's own polls as
+        // well as over `lim` of wall time (a frozen or starved machine stops
+        // the watchdog together with the workers and must not count).
+        let need_polls = (lim.as_millis() / 500) as u32;
+        let mut polls: Vec<u32> = Vec::new();
         loop {
             std::thread::sleep(Duration::from_millis(500));
             let slots: Vec<Arc<Slot>> = SLOTS.get_or_init(|| Mutex::new(Vec::new())).lock().unwrap().clone();
             last.resize(slots.len(), (u64::MAX, Instant::now()));
+            polls.resize(slots.len(), 0);
             for (i, s) in slots.iter().enumerate() {
                 let seq = s.seq.load(Ordering::Acquire);
                 if !s.busy.load(Ordering::Acquire) || last[i].0 != seq {
                     last[i] = (seq, Instant::now());
+                    polls[i] = 0;
                     continue;
                 }
-                if last[i].1.elapsed() > lim {
+                polls[i] += 1;
+                if last[i].1.elapsed() > lim && polls[i] >= need_polls {
                     let noted = s.data.lock().unwrap().clone();
                     let (key, mut case) = to_case(&noted);
                     case["hang_seconds"] = qvlib::json!(lim.as_secs());
